@@ -40,6 +40,10 @@ pub struct GenCfg {
     pub sound_derives: bool,
     /// parameter names that collide with wrapper-internal bindings
     pub hazard_names: bool,
+    /// a type without a vftable-carrying base declares a vftable block with probability vft_num/4
+    pub vft_num: u64,
+    /// a type takes bases with probability base_num/3
+    pub base_num: u64,
 }
 
 impl GenCfg {
@@ -70,6 +74,8 @@ impl GenCfg {
             allow_packed_embed: false,
             sound_derives: true,
             hazard_names: false,
+            vft_num: 1,
+            base_num: 1,
         }
     }
     pub fn layout_only(w: u64) -> GenCfg {
@@ -181,7 +187,8 @@ impl<'t, 'd> Gen<'t, 'd> {
             let bases = [0x0040_0000u64, 0x1000_0000, 0x7654_0000, 0x1_0000_0000, 0x1234_5678_0000, 0x3fff_0000_0000];
             let base = *self.t.pick(&bases);
             self.page_counter += 1;
-            let off = 8 * self.t.below(0x1c0) + self.t.below(8) * self.t.below(2);
+            // 64-aligned: the emitted accessors dereference the address as a typed pointer
+            let off = 64 * self.t.below(0x38);
             let a = base + self.page_counter * 0x1000 + off;
             self.used_addrs.insert(a);
             a
@@ -498,7 +505,7 @@ impl<'t, 'd> Gen<'t, 'd> {
         let mut first_base_vft: Option<Vft> = None;
         let mut first_base_has_vft = false;
         let mut bases: Vec<usize> = vec![];
-        if self.cfg.bases && self.t.chance(1, 3) {
+        if self.cfg.bases && self.t.chance(self.cfg.base_num, 3) {
             let cands: Vec<usize> = (0..self.known.len())
                 .filter(|&k| {
                     let kn = &self.known[k];
@@ -531,7 +538,7 @@ impl<'t, 'd> Gen<'t, 'd> {
                     self.import_sig(m, &v);
                     td.vft = Some(v);
                 }
-            } else if self.t.chance(1, 4) {
+            } else if self.t.chance(self.cfg.vft_num, 4) {
                 td.vft = Some(self.gen_vft(m, None));
                 owns_vptr = true;
             }
